@@ -166,16 +166,15 @@ class Source:
 
     def find(self, path):
         """path: list of segments like ['impl ops::Add<Value> for Value', 'fn add'].
-        Returns dict(start, body_open, end, header, kind, name)."""
-        lo, hi = 0, len(self.text)
-        found = None
-        for seg in path:
-            segn = norm(seg)
+        Returns dict(start, body_open, end, header, kind, name).  When an intermediate segment
+        (e.g. `impl Value`) matches several items, the one that contains the rest of the path is taken;
+        the full path must still resolve uniquely."""
+        def rec(lo, hi, segs):
+            segn = norm(segs[0])
             cands = []
             for it in self._items(lo, hi):
                 kind, header, name, start, body_open, end = it
                 if segn.startswith('impl'):
-                    # compare impl headers modulo whitespace and a trailing where clause
                     h = re.sub(r'\s+where\b.*$', '', header)
                     if kind == 'impl' and norm(h) == segn:
                         cands.append(it)
@@ -183,14 +182,44 @@ class Source:
                     k, _, nm = segn.partition(' ')
                     if kind == k and name == nm:
                         cands.append(it)
-            if len(cands) != 1:
-                raise SliceError('%s: item path segment %r matches %d items' % (self.path, seg, len(cands)))
-            found = cands[0]
-            kind, header, name, start, body_open, end = found
-            if body_open is not None:
-                lo, hi = body_open + 1, end - 1
-        kind, header, name, start, body_open, end = found
+            if len(segs) == 1:
+                return cands
+            out = []
+            for it in cands:
+                if it[4] is not None:
+                    out += rec(it[4] + 1, it[5] - 1, segs[1:])
+            return out
+        res = rec(0, len(self.text), list(path))
+        if len(res) != 1:
+            raise SliceError('%s: item path %r matches %d items' % (self.path, ' :: '.join(path), len(res)))
+        kind, header, name, start, body_open, end = res[0]
         return dict(kind=kind, header=header, name=name, start=start, body_open=body_open, end=end)
+
+    def find_enclosing(self, path):
+        """the item named by path[:-1] that contains the unique match of `path`"""
+        target = self.find(path)
+        best = None
+        def rec(lo, hi, segs):
+            nonlocal best
+            segn = norm(segs[0])
+            for it in self._items(lo, hi):
+                kind, header, name, start, body_open, end = it
+                ok = False
+                if segn.startswith('impl'):
+                    h = re.sub(r'\s+where\b.*$', '', header)
+                    ok = kind == 'impl' and norm(h) == segn
+                else:
+                    k, _, nm = segn.partition(' ')
+                    ok = kind == k and name == nm
+                if ok and start <= target['start'] and target['end'] <= end:
+                    if len(segs) == 1:
+                        best = dict(kind=kind, header=header, name=name, start=start, body_open=body_open, end=end)
+                    elif body_open is not None:
+                        rec(body_open + 1, end - 1, segs[1:])
+        rec(0, len(self.text), list(path[:-1]))
+        if best is None:
+            raise SliceError('%s: enclosing item of %r not found' % (self.path, ' :: '.join(path)))
+        return best
 
     def slice(self, a, b):
         return self.text[a:b]
